@@ -68,7 +68,7 @@ static void show(JsonVariantConst v, string& o) {
     case VariantType::Double: { double f = v.as<double>(); uint64_t b; memcpy(&b, &f, 8); snprintf(buf, 48, "d%016llx", (unsigned long long)b); o += buf; break; }
 #endif
     case VariantType::LinkedString:
-    case VariantType::OwnedString: { JsonString s = v.as<JsonString>(); o += "S" + hexs(s.c_str(), s.size()); if (s.c_str()[s.size()] != 0) UNTERMINATED++; break; }
+    case VariantType::OwnedString: { JsonString s = v.as<JsonString>(); o += "S" + hexs(s.c_str(), s.size()); if (s.c_str() && s.c_str()[s.size()] != 0) UNTERMINATED++; break; }
     case VariantType::RawString: { JsonString s = d->asRawString(); o += "R" + hexs(s.c_str(), s.size()); break; }
     case VariantType::Array: {
       o += "["; bool first = true;
@@ -78,7 +78,7 @@ static void show(JsonVariantConst v, string& o) {
       o += "{"; bool first = true;
       for (JsonPairConst kv : v.as<JsonObjectConst>()) {
         if (!first) o += ","; first = false;
-        o += hexs(kv.key().c_str(), kv.key().size()); if (kv.key().c_str()[kv.key().size()] != 0) UNTERMINATED++; o += ":"; show(kv.value(), o); }
+        o += hexs(kv.key().c_str(), kv.key().size()); if (kv.key().c_str() && kv.key().c_str()[kv.key().size()] != 0) UNTERMINATED++; o += ":"; show(kv.value(), o); }
       o += "}"; break; }
   }
 }
